@@ -380,5 +380,8 @@ func cmdDeliver(seed int64, runs int, outPath string, feat string, cfgs string) 
 	}
 	// whatever the runs left behind
 	extra, _ := settle(base, nil, 2*time.Second)
+	if len(extra) > 0 {
+		extra, _ = settle(base, nil, 10*time.Second)
+	}
 	em.emit(map[string]interface{}{"ev": "Leftover", "goroutines": extra})
 }
